@@ -60,7 +60,8 @@ Lemma search_skip {A} (m : text -> option A) pre t :
   (forall p1 p2, pre = p1 ++ p2 -> p2 <> [] -> m (p2 ++ t) = None) -> search m (pre ++ t) = search m t.
 Proof.
   induction pre as [|c pre IH]; intro H; [reflexivity|].
-  cbn [app search]. rewrite (H [] (c :: pre) eq_refl) by discriminate.
+  assert (H0 : m (c :: pre ++ t) = None) by (apply (H [] (c :: pre) eq_refl); discriminate).
+  cbn [app search]. rewrite H0.
   apply IH. intros p1 p2 E NE. apply (H (c :: p1) p2); [cbn [app]; f_equal; exact E|exact NE].
 Qed.
 Lemma search_v2_skip pre t : forallb (fun c => negb (c =? 60)) pre = true -> search_v2 (pre ++ t) = search_v2 t.
@@ -144,6 +145,6 @@ Proof.
   intro V. rewrite str_v2_layout.
   change (xml_decl_q 34 ++ CRLF ++ ofx_decl h ++ CRLF) with ((xml_decl_q 34 ++ CRLF) ++ ofx_decl h ++ CRLF).
   rewrite parse_v2_at; [|exact V|].
-  - change (skipws CRLF) with (@nil N). change (len []) with 0. f_equal. f_equal. lia.
+  - change (skipws CRLF) with (@nil N). change (len []) with 0. rewrite N.sub_0_r. reflexivity.
   - rewrite <- app_assoc. rewrite xml_decl_skip by (left; reflexivity). apply search_v2_skip. reflexivity.
 Qed.
